@@ -246,7 +246,7 @@ Lemma step_inv s m sc o :
   let '(m1, v) := mon m o out in
   excused v (excuses (scope sc o)) = true /\ Inv s1 m1 (scope sc o).
 Proof.
-  intros I. destruct o as [h|[r|]|p|k|c|p|ks|h ks]; simpl.
+  intros I. destruct o as [h|[r|]|p|k|c|p|ks|h r|h ks]; simpl.
   - (* Request *)
     destruct (find_hash h (reqs s)) as [c|] eqn:E; simpl.
     + apply find_hash_In in E. apply (inv_reqs _ _ _ I) in E. apply mem_pair_In in E.
@@ -325,6 +325,17 @@ Proof.
       pose proof (burst_ctr_ge ks (ctr s)) as Hge.
       destruct I as [I1 I2 I3 I4 I5 I6 I7 I8]. constructor; simpl; auto.
       eapply desc_lt_weaken; [|exact I4]. lia.
+  - (* RespDuring *)
+    destruct (find_hash h (reqs s)) as [c|] eqn:E; simpl.
+    + apply find_hash_In in E. apply (inv_reqs _ _ _ I) in E. apply mem_pair_In in E.
+      rewrite E. simpl. split; [reflexivity | exact I].
+    + rewrite (fresh_ok s m sc I). rewrite !N.eqb_refl. simpl. split; [reflexivity|].
+      destruct I as [I1 I2 I3 I4 I5 I6 I7 I8]. constructor; simpl; auto.
+      * intros c [<-|Hc]; [lia | specialize (I2 _ Hc); lia].
+      * intros c' h' Hin. apply add_req_sub in Hin.
+        destruct Hin as [Heq|Hin]; [left; symmetry; exact Heq | right].
+        apply In_remove_N in Hin. apply In_remove_N. split; [tauto | apply I3; tauto].
+      * eapply desc_lt_weaken; [|exact I4]. lia.
   - (* DupBurst *)
     destruct (find_hash h (reqs s)) as [c|] eqn:E; simpl.
     + (* withheld request + burst *)
@@ -392,7 +403,7 @@ Lemma step_written s o :
   Forall (fun x => (ctr s < x <= ctr s1)%N) (written_of out) /\ (ctr s <= ctr s1)%N.
 Proof.
   assert (H1 : forall c : N, StronglySorted N.lt [c]) by (intros c; constructor; constructor).
-  destruct o as [h|[r|]|p|k|c|p|ks|h ks]; simpl.
+  destruct o as [h|[r|]|p|k|c|p|ks|h r|h ks]; simpl.
   - destruct (find_hash h (reqs s)); simpl.
     + repeat split; try constructor; lia.
     + repeat split; [apply H1 | constructor; [lia | constructor] | lia].
@@ -406,6 +417,9 @@ Proof.
   - destruct (lru_put (N.succ (ctr s)) p (lru s) (space s)). simpl.
     repeat split; [apply H1 | constructor; [lia | constructor] | lia].
   - destruct (burst_written ks (ctr s)) as [Hs Hf]. repeat split; [exact Hs | exact Hf | apply burst_ctr_ge].
+  - destruct (find_hash h (reqs s)); simpl.
+    + repeat split; try constructor; lia.
+    + repeat split; [apply H1 | constructor; [lia | constructor] | lia].
   - destruct (find_hash h (reqs s)); simpl.
     + destruct (burst_written ks (ctr s)) as [Hs Hf]. repeat split; [exact Hs | exact Hf | apply burst_ctr_ge].
     + destruct (burst_written ks (N.succ (ctr s))) as [Hs Hf].
@@ -492,12 +506,14 @@ Lemma step_bounded s o :
   (length (reqs s) <= S request_cache_limit)%nat ->
   (length (reqs (fst (step s o))) <= S request_cache_limit)%nat.
 Proof.
-  intros H. destruct o as [h|[r|]|p|k|c|p|ks|h ks]; simpl; try exact H.
+  intros H. destruct o as [h|[r|]|p|k|c|p|ks|h r|h ks]; simpl; try exact H.
   - destruct (find_hash h (reqs s)); simpl; [exact H | apply add_req_length; exact H].
   - pose proof (length_remove_N_le r (reqs s)). lia.
   - destruct (lru_put (N.succ (ctr s)) p (lru s) (space s)). simpl. exact H.
   - destruct (lru_get c (lru s)). simpl. exact H.
   - destruct (lru_put (N.succ (ctr s)) p (lru s) (space s)). simpl. exact H.
+  - destruct (find_hash h (reqs s)); simpl; [exact H | apply add_req_length].
+    pose proof (length_remove_N_le r (reqs s)). lia.
   - destruct (find_hash h (reqs s)); simpl; [exact H | apply add_req_length; exact H].
 Qed.
 
@@ -577,4 +593,21 @@ Theorem dupburst_any_position s h c ks1 ks2 :
 Proof.
   intros E. split; [|apply run_others_app].
   simpl. rewrite run_others_reqs, E. reflexivity.
+Qed.
+
+(* ---------- a response processed while a request is inside the connection writer ---------- *)
+(* When the request is not withheld, [RespDuring h r] is "answer r, then request h" as far as the
+   remembered requests go, provided r does not carry h's hash (then the duplicate test, made before the
+   write, and the sequential order differ: the generator keeps to other hashes). *)
+Theorem respduring_is_response_then_request s h r :
+  find_hash h (reqs s) = None ->
+  fst (step s (RespDuring h r)) = fst (step (fst (step s (Response (Some r)))) (Request h)) /\
+  snd (step s (RespDuring h r)) = snd (step (fst (step s (Response (Some r)))) (Request h)).
+Proof.
+  intros E. simpl. rewrite E.
+  assert (E' : find_hash h (remove_N r (reqs s)) = None).
+  { destruct (find_hash h (remove_N r (reqs s))) as [c|] eqn:F; [|reflexivity].
+    apply find_hash_In in F. apply In_remove_N in F. destruct F as [_ F].
+    exfalso. exact (find_hash_None h (reqs s) E c F). }
+  rewrite E'. split; reflexivity.
 Qed.
